@@ -40,6 +40,9 @@ CLAIMED = {
  'C13': dict(
    text="Proof over the reals for all mu > 0, mu_b >= 0 and all symmetric tensors: every Stress(strain rate) overload of both Newtonian fluid models equals 2 mu D (+ mu_b tr(D) I), every StrainRate overload inverts it, strain-only and stress-only stubs return zero, the compressible model built from mu alone stores mu_b == 0, strain arguments are ignored, and every pure virtual has exactly one overrider (z3 nlsat on VCs generated from the instantiated AST). Linearity follows from equality with the linear form.",
    ref="DESIGN.md 5 C13", note="REAL semantics (rounding not machine-checked); same extraction note as C12."),
+ 'C18': dict(
+   text="Proof over the reals for all positive scalar inputs and arbitrary tensors: each of the 29 definitional relations named by the property (existence checked against the instantiated AST) equals its textbook formula including the dimensionless constants: 1/2 rho v^2, 1/2 v^2, p + q, sqrt(K/rho) = sqrt(gamma p/rho) = sqrt(gamma R T) (as r >= 0, r^2 = ...), v/a, rho v L/mu, v L/nu, cp mu/k, nu/alpha, cp/cv, cp - cv (extensive and specific), k/(rho cp), mu/rho, 1/f, sym(grad u), sym(grad v), alpha dT, (beta dT/3) I, von Mises, sigma.n, -p I (z3 nlsat on VCs generated from the instantiated bodies).",
+   ref="DESIGN.md 5 C18", note="REAL semantics: 'a few ulps' is not machine-checked (bodies have <= ~10 roundings). Formula table transcribed from the property statement (phqv/props/c18.py). Thorough tier repeats for float and long double instantiations."),
 }
 REASONS = {'C19': "static-initialisation order is a property of the compilers' start-up schedule, not of any function's pre/postcondition; CBMC has no model of C++ dynamic initialisation and contracts cannot express it (DESIGN.md 6)"}
 checks = []
